@@ -1,6 +1,10 @@
 import ObiVerif.Model.Lcs
 import ObiVerif.Lemmas.Lcs
 import ObiVerif.Lemmas.LcsBand
+import ObiVerif.Model.LcsBuf
+import ObiVerif.Lemmas.LcsD1Verbatim
+import ObiVerif.Lemmas.LcsVerbatimTop
+import ObiVerif.Lemmas.LcsVerbatimIndep
 /-!
 # C09 — LCS and one-difference kernels are exact within their error bound (property theorems)
 
@@ -263,5 +267,141 @@ theorem d1or0_symm (a b : Seq) :
 /-- non-vacuity: the three verdicts occur ("aab"/"ab": a deletion inside a run is reported at the end of the run) -/
 example : d1F [97, 97, 98] [97, 98] = ⟨1, 1, 97, 45⟩ ∧ d1F [97, 99] [97, 99] = ⟨0, -1, 0, 0⟩ ∧
     d1F [97, 98] [98, 97] = ⟨-1, -1, 0, 0⟩ ∧ d1F [97, 99, 103] [97, 116, 103] = ⟨1, 1, 99, 116⟩ := by decide
+
+/-! ## Refinement: the theorems hold of the VERBATIM transcriptions
+
+`d1or0` (the two index loops of `D1Or0` with their early exits, Go bounds checks explicit) and `fastLCSEGFScoreByte`
+(endgapfree = false: the two anti-diagonal rows in one buffer, the `xs`/`xf` arithmetic, packed cells, sentinels,
+`_setout`, every slice access bounds-checked) are proved EQUAL, for all inputs, to the structural layers `d1F` /
+`bandLCS` the theorems above are stated on (`Lemmas/LcsD1Verbatim.lean`; `Lemmas/LcsMatrix.lean`,
+`Lemmas/LcsVerbatim.lean`, `Lemmas/LcsVerbatimTop.lean`: invariant "the buffer row holds the in-matrix in-band cells
+of anti-diagonals 2y and 2y+1 of the banded matrix", preserved by one outer iteration because every cell a loop
+body READS was WRITTEN earlier in the same call). The headline theorems are restated on the verbatim functions. -/
+
+/-- **`d1or0_verbatim_refines`** — the index loops of `D1Or0` never leave the slices (no panic), terminate within
+their fuel, and return what prefix/suffix stripping returns. All byte sequences, no hypothesis. -/
+theorem d1or0_verbatim_refines (a b : Seq) : d1or0 a b = .ok (d1F a b) := d1or0_refines a b
+
+/-- **`d1or0_verbatim_spec`** — `d1or0_spec` on the verbatim transcription -/
+theorem d1or0_verbatim_spec (a b : Seq) :
+    ∃ d, d1or0 a b = .ok d ∧
+      (d.verdict = 0 ↔ a = b) ∧ (d.verdict = 0 ↔ lev a b = 0) ∧ (d.verdict = 1 ↔ lev a b = 1) ∧
+      (d.verdict = 1 → ∃ n : Nat, d.pos = (n : Int) ∧ OneEdit a b n d.a1 d.a2) ∧
+      (d.verdict = 0 → d = ⟨0, -1, 0, 0⟩) ∧
+      (lev a b ≠ 0 → lev a b ≠ 1 → d = ⟨-1, -1, 0, 0⟩) :=
+  ⟨d1F a b, d1or0_refines a b, d1or0_spec a b⟩
+
+/-- **`d1or0_verbatim_symm`** — `d1or0_symm` on the verbatim transcription -/
+theorem d1or0_verbatim_symm (a b : Seq) :
+    ∃ d, d1or0 a b = .ok d ∧ d1or0 b a = .ok ⟨d.verdict, d.pos, d.a2, d.a1⟩ :=
+  ⟨d1F a b, d1or0_refines a b, by rw [d1or0_refines b a, d1or0_symm a b]⟩
+
+/-- **`fastLCS_verbatim_refines`** — for ALL sequences (no length bound), every bound `e` and every scratch buffer
+(`fill = none`: nil; `some w`: pre-allocated, every cell holding the stale word `w`), the verbatim kernel with
+endgapfree = false does not panic and returns `resOf (bandLCS a b e)`: `(-1, -1, -1)` for `none`, `(s, l, 0)` for
+`some (s, l)`. -/
+theorem fastLCS_verbatim_refines (a b : Seq) (e : Int) (fill : Option UInt64) :
+    fastLCSEGFScoreByte a b e false fill = .ok (resOf (bandLCS a b e)) :=
+  ObiVerif.Lcs.fastLCS_verbatim_refines a b e fill
+
+/-- `FastLCSScore` (the wrapper the callers use) -/
+theorem fastLCSScore_verbatim_refines (a b : Seq) (e : Int) :
+    fastLCSScore a b e = .ok ((resOf (bandLCS a b e)).1, (resOf (bandLCS a b e)).2.1) := by
+  unfold fastLCSScore; rw [fastLCS_verbatim_refines]; rfl
+
+/-- **`fastLCS_verbatim_never_panics`** — no slice access of the kernel (endgapfree = false) is ever out of range,
+whatever the lengths, the bound and the buffer -/
+theorem fastLCS_verbatim_never_panics (a b : Seq) (e : Int) (fill : Option UInt64) :
+    ∃ r, fastLCSEGFScoreByte a b e false fill = .ok r := ⟨_, fastLCS_verbatim_refines a b e fill⟩
+
+/-- **`fastLCS_verbatim_sound`** — `fastLCS_sound` on the verbatim kernel: its answer is "not found" or the score and
+length of an actual alignment (never better than the optimum) -/
+theorem fastLCS_verbatim_sound (a b : Seq) (e : Int) (fill : Option UInt64) (hlen : a.length + b.length + 1 ≤ 30000) :
+    fastLCSEGFScoreByte a b e false fill = .ok (-1, -1, -1) ∨
+    ∃ s l : Nat, fastLCSEGFScoreByte a b e false fill = .ok ((s : Int), (l : Int), 0) ∧ Ali samenuc a b s l ∧
+      (s < (lcsDP samenuc a b).1 ∨ (s = (lcsDP samenuc a b).1 ∧ (lcsDP samenuc a b).2 ≤ l)) := by
+  rw [fastLCS_verbatim_refines]
+  cases h : bandLCS a b e with
+  | none => left; rfl
+  | some p => right; exact ⟨p.1, p.2, rfl, fastLCS_sound a b e p.1 p.2 hlen h⟩
+
+/-- **`fastLCS_verbatim_exact`** — `fastLCS_exact` on the verbatim kernel: with no bound, or whenever the differences
+of the optimum do not exceed the bound, it returns exactly (LCS length, length of the shortest alignment achieving
+it, 0), with any scratch buffer -/
+theorem fastLCS_verbatim_exact (a b : Seq) (e : Int) (fill : Option UInt64) (hlen : a.length + b.length + 1 ≤ 30000)
+    (h : e = -1 ∨ ((lcsDP samenuc a b).2 : Int) - ((lcsDP samenuc a b).1 : Int) ≤ e) :
+    fastLCSEGFScoreByte a b e false fill =
+      .ok (((lcsDP samenuc a b).1 : Int), ((lcsDP samenuc a b).2 : Int), 0) := by
+  rw [fastLCS_verbatim_refines, fastLCS_exact a b e hlen h]; rfl
+
+/-- **`fastLCS_verbatim_beyond`** — `fastLCS_beyond` on the verbatim kernel: beyond the bound it answers
+`(-1, -1, -1)` or a pair that is itself beyond the bound -/
+theorem fastLCS_verbatim_beyond (a b : Seq) (e : Int) (fill : Option UInt64) (hlen : a.length + b.length + 1 ≤ 30000)
+    (h : e ≠ -1 ∧ e < ((lcsDP samenuc a b).2 : Int) - ((lcsDP samenuc a b).1 : Int)) :
+    fastLCSEGFScoreByte a b e false fill = .ok (-1, -1, -1) ∨
+    ∃ s l : Nat, fastLCSEGFScoreByte a b e false fill = .ok ((s : Int), (l : Int), 0) ∧ e < (l : Int) - (s : Int) := by
+  rw [fastLCS_verbatim_refines]
+  rcases fastLCS_beyond a b e hlen h with h1 | ⟨s, l, h1, h2⟩
+  · left; rw [h1]; rfl
+  · right; exact ⟨s, l, by rw [h1]; rfl, h2⟩
+
+/-- the verbatim `FastLCSScore` is exact within the bound -/
+theorem fastLCSScore_verbatim_exact (a b : Seq) (e : Int) (hlen : a.length + b.length + 1 ≤ 30000)
+    (h : e = -1 ∨ ((lcsDP samenuc a b).2 : Int) - ((lcsDP samenuc a b).1 : Int) ≤ e) :
+    fastLCSScore a b e = .ok (((lcsDP samenuc a b).1 : Int), ((lcsDP samenuc a b).2 : Int)) := by
+  rw [fastLCSScore_verbatim_refines, fastLCS_exact a b e hlen h]; rfl
+
+/-! ### The scratch buffer
+
+`fastLCSBuf` (Model/LcsBuf.lean) is one call of the same transcription on the CALLER's buffer, whatever it contains
+and whatever its capacity (re-allocated iff `cap < 2*width`, as in the code); `lcsHistory` threads one buffer
+through a list of calls. -/
+
+/-- **`fastLCS_scratch_independent`** — endgapfree = false: the answer of a call does not depend on the scratch
+buffer it is given (any capacity, any stale content; in particular nil / poisoned / left by earlier calls): every
+cell the kernel reads was written in the same call. No hypothesis on the lengths. -/
+theorem fastLCS_scratch_independent (a b : Seq) (e : Int) (buf0 : Array UInt64) :
+    ∃ buf', fastLCSBuf a b e false buf0 = .ok (resOf (bandLCS a b e), buf') ∧
+      ∀ fill, fastLCSEGFScoreByte a b e false fill = .ok (resOf (bandLCS a b e)) := by
+  obtain ⟨buf', h⟩ := fastLCSBuf_refines a b e buf0
+  exact ⟨buf', h, fun fill => fastLCS_verbatim_refines a b e fill⟩
+
+/-- **`fastLCS_history_independent`** — a history of endgapfree = false calls on ONE scratch buffer (any order of
+lengths and bounds: wide band then narrow band, long pair then short pair, …), started on any buffer: every answer
+is the answer of the same call on a fresh buffer. -/
+theorem fastLCS_history_independent (calls : List (Seq × Seq × Int × Bool)) (hegf : ∀ c ∈ calls, c.2.2.2 = false)
+    (buf0 : Array UInt64) :
+    lcsHistory calls buf0 = calls.map (fun c => fastLCSEGFScoreByte c.1 c.2.1 c.2.2.1 false none) :=
+  lcsHistory_fresh calls hegf buf0
+
+/-- **`fastLCS_anymode_scratch_independent`** — BOTH modes (endgapfree = false: `FastLCSScore`; endgapfree = true:
+`FastLCSEGFScore`), all sequences, every bound, no length hypothesis: the verbatim kernel never panics (no slice
+access out of range) and there is ONE answer `(score, length, end)` that it returns for every scratch buffer — nil,
+pre-allocated and filled with any stale word, or the caller's buffer of any capacity and any content. (Relational
+invariant over two runs: the two buffers agree on the cells written so far in the call, and every cell read is one
+of those — `Lemmas/LcsVerbatimEgf.lean`, `LcsVerbatimRel.lean`, `LcsVerbatimIndep.lean`.) -/
+theorem fastLCS_anymode_scratch_independent (a b : Seq) (e : Int) (egf : Bool) :
+    ∃ r, (∀ fill, fastLCSEGFScoreByte a b e egf fill = .ok r) ∧
+      (∀ buf0, ∃ buf', fastLCSBuf a b e egf buf0 = .ok (r, buf')) :=
+  fastLCS_anymode_independent a b e egf
+
+/-- **`fastLCS_anymode_history_independent`** — BOTH modes: a history of calls on ONE scratch buffer (any mix of
+modes, lengths and bounds, in any order), started on any buffer: no call panics and every answer is the answer of
+the same call on a fresh (nil) buffer. -/
+theorem fastLCS_anymode_history_independent (calls : List (Seq × Seq × Int × Bool)) (buf0 : Array UInt64) :
+    lcsHistory calls buf0 = calls.map (fun c => fastLCSEGFScoreByte c.1 c.2.1 c.2.2.1 c.2.2.2 none) :=
+  lcsHistory_fresh_anymode calls buf0
+
+/-- non-vacuity (tests on sample values): the verbatim kernel on a narrow band with a poisoned buffer; a history
+narrow band -> wide band -> narrow band on one buffer -/
+example : fastLCSEGFScoreByte [97, 99, 103, 116, 97, 99] [97, 99, 103, 116, 99] 1 false (some 0xffffffffffffffff) =
+    .ok (5, 6, 0) := by
+  rw [fastLCS_verbatim_refines]; exact congrArg _ (by decide)
+example : (∀ c ∈ [(([97, 99, 103, 116], [97, 103], 2, false) : Seq × Seq × Int × Bool),
+      ([97, 99, 103, 116], [97, 99, 99, 116], 2, false), ([97, 99], [97], 1, false)], c.2.2.2 = false) ∧
+    (resOf (bandLCS [97, 99, 103, 116] [97, 103] 2), resOf (bandLCS [97, 99, 103, 116] [97, 99, 99, 116] 2),
+      resOf (bandLCS [97, 99] [97] 1)) = ((2, 4, 0), (3, 4, 0), (1, 2, 0)) := by decide
+example : d1or0 [97, 97, 98] [97, 98] = .ok ⟨1, 1, 97, 45⟩ := by
+  rw [d1or0_verbatim_refines]; exact congrArg _ (by decide)
 
 end ObiVerif.Props.C09
